@@ -259,12 +259,11 @@ the default vectors: `ok br=ident|rot m=…` / `err:value`. -/
 def doTsys (l : Line) : Option String := do
   let tol2 : Rat := 1 / 10 ^ 20
   let atol : Rat := 1 / 10 ^ 8
-  let rtol : Rat := 1 / 10 ^ 5
   match l.nat? "dim" with
   | some 2 => do
       let d ← v2? l "d"
       let p ← v2? l "p"
-      match tsMatrix2 sqrtApprox tol2 atol rtol d p with
+      match tsMatrix2 sqrtApprox tol2 atol d p with
       | none => some "err:value"
       | some m =>
         let br := if m == M2.one then "ident" else "rot"
@@ -275,7 +274,7 @@ def doTsys (l : Line) : Option String := do
       let (cpi, spi) ← match l.rats? "pi" with
         | some [c, s] => some (c, s)
         | _ => none
-      match tsMatrix3 sqrtApprox tol2 atol rtol cpi spi d p with
+      match tsMatrix3 sqrtApprox tol2 atol cpi spi d p with
       | none => some "err:value"
       | some m =>
         let br := if m == M3.one then "ident" else "rot"
